@@ -367,6 +367,14 @@ def run(chk):
             srcs.append('<block wx:for="{{l}}">%s%s</block><v wx:if="{{c}}">%s%s</v><v wx:else>%s%s</v>' % (first, rest, first, rest, first, rest))
             srcs.append('<template name="t9">%s%s</template><template is="t9" data="{{a, b}}"/>' % (first, rest))
             nshape += 3
+    # scope names the printer re-derives: `slot:` references on <block> and on elements printed self-closing, before / around wx:for and element references
+    for t_ in ['<cmp-x><block slot:v><view wx:for="{{l}}">{{item}}|{{v}}|{{index}}</view></block></cmp-x>',
+               '<cmp-x><block slot:a><view slot:b>{{b}}|{{a}}</view><v>{{a}}</v></block><v>{{a}}</v></cmp-x>',
+               '<cmp-x><block slot:a="x" slot:b><block wx:for="{{l}}" wx:for-item="y">{{y}}|{{x}}|{{b}}</block></block></cmp-x>',
+               '<cmp-x><view slot:a/><view wx:for="{{l}}">{{item}}</view><block slot:b/><view slot:c>{{c}}</view></cmp-x>',
+               '<block wx:for="{{l}}" wx:for-item="x"/><block wx:for="{{o}}" wx:for-item="y">{{y}}</block><block wx:for="{{l}}"/><v wx:for="{{o}}">{{item}}{{index}}</v>']:
+        srcs.append(t_)
+        nshape += 1
     # a binding followed by static text (the value parser appends the text to a literal it adds itself), and unquoted attribute values
     for e in ["x + 's'", "'s' + x", "x + ''", "a + b + 't'", "x + 's' + 't'", "(x + 's')", "x - 's'", "f(x) + '&'"]:
         srcs.append('<v title="{{ %s }}q&amp;" data-k="{{ %s }}{{ %s }}z">{{ %s }}t&lt;</v>' % (e, e, e, e))
